@@ -5,6 +5,7 @@ package main
 // schedule point while canary runs go on among the survivors.
 
 import (
+	"bytes"
 	"context"
 	"encoding/json"
 	"fmt"
@@ -12,6 +13,7 @@ import (
 	"os"
 	"os/exec"
 	"sort"
+	"strings"
 	"sync"
 	"sync/atomic"
 	"time"
@@ -391,6 +393,9 @@ var entryNames = map[string]string{"routersend": "ERouterSend", "sendraw": "ESen
 const entryServers = 5
 
 func runEntry(in input) lib.Case {
+	if wedgedKinds["entry"] >= 2 {
+		return lib.Case{Discard: true}
+	}
 	t0 := time.Now()
 	defer func() {
 		if os.Getenv("C09_TIMING") != "" {
@@ -428,9 +433,9 @@ func runEntry(in input) lib.Case {
 		// the failure is noticed: no registered connection to a dead server is left at self
 		selfRouter := c.servers[in.Self].Router
 		waitUntil(func() bool {
-			conns := selfRouter.VerifConnections()
 			for _, d := range in.Down {
-				if conns[c.servers[d].ServerIdentity.GetID()] > 0 {
+				l, ok := connListBounded(selfRouter, c.servers[d].ServerIdentity.GetID())
+				if !ok || len(l) > 0 {
 					return false
 				}
 			}
@@ -508,6 +513,7 @@ func runEntry(in input) lib.Case {
 	}
 	if !returned {
 		entryCluster = nil // wedged: abandon it instead of waiting for its CloseAll
+		wedgedKinds["entry"]++
 		return lib.Case{Coq: "CCluster 1 1 false true true true", Class: "entry:" + in.Entry + "-blocked", Nontrivial: true,
 			Obs: "the entry point did not return within 15 s"}
 	}
@@ -704,26 +710,36 @@ func registerPending(ins []interface{}) {
 }
 
 // a cluster scenario gets 150 s; one that is still running then is blocked, which is an observation
-const childDeadline = 150 * time.Second
+const childDeadline = 75 * time.Second
 
 func runChild(raw []byte) []byte {
 	ctx, cancel := context.WithTimeout(context.Background(), childDeadline)
 	defer cancel()
 	cmd := exec.CommandContext(ctx, os.Args[0], "-c09child", string(raw))
-	cmd.Stderr = nil
+	var stderr bytes.Buffer
+	cmd.Stderr = &stderr
 	out, err := cmd.Output()
 	if ctx.Err() != nil {
 		return []byte(`{"blocked":true}`)
 	}
 	if err != nil {
-		return []byte(fmt.Sprintf(`{"crashed":true,"exit":%q}`, err.Error()))
+		tail := stderr.String()
+		if i := strings.Index(tail, "panic:"); i >= 0 {
+			tail = tail[i:]
+		} else if i := strings.Index(tail, "fatal error:"); i >= 0 {
+			tail = tail[i:]
+		}
+		if len(tail) > 1800 {
+			tail = tail[:1800]
+		}
+		return []byte(fmt.Sprintf(`{"crashed":true,"exit":%q,"stderr":%q}`, err.Error(), tail))
 	}
 	return out
 }
 
 func childResult(raw []byte) []byte {
 	pendingOnce.Do(func() {
-		sem := make(chan struct{}, 4)
+		sem := make(chan struct{}, 6)
 		for _, p := range pending {
 			p := p
 			if _, dup := pendingRes[string(p)]; dup {
@@ -778,6 +794,10 @@ func runClusterParent(in input, raw json.RawMessage) lib.Case {
 	}
 	coq := fmt.Sprintf("CCluster %d %d %s %s %s %s", out.Canaries, out.CanariesDone, lib.Bool(out.Returned), lib.Bool(alive),
 		lib.Bool(out.Told), lib.Bool(out.AfterRestart))
+	if (in.Moment == "treereq" || in.Moment == "treereqlost") && alive && !blocked {
+		coq = fmt.Sprintf("CTreeReq %s %d %d %s %s %s", lib.Bool(in.Moment == "treereqlost"), out.Canaries, out.CanariesDone,
+			lib.Bool(out.Returned), lib.Bool(alive), lib.Bool(out.AfterRestart))
+	}
 	var obs interface{} = out
 	if blocked {
 		obs = map[string]interface{}{"scenario_did_not_finish_within_s": int(childDeadline / time.Second)}
@@ -863,7 +883,10 @@ func clusterScenario(in input) clusterOut {
 			continue
 		}
 		i := i
+		rt := s.Router
 		s.Router.AddErrorHandler(func(si *network.ServerIdentity) {
+			_ = rt.Closed() // a handler may use its own router
+			_ = rt.Tx()
 			if reg.index(si) == v {
 				toldMu.Lock()
 				told[i] = true
@@ -1037,7 +1060,15 @@ func clusterScenario(in input) clusterOut {
 	// 4. every send of the protocol returned
 	out.Returned = waitUntil(func() bool {
 		return atomic.LoadInt64(&reg.sendsBeg) == atomic.LoadInt64(&reg.sendsEnd)
-	}, 30*time.Second)
+	}, 10*time.Second)
+	if out.CanariesDone < out.Canaries || !out.Returned {
+		// the survivors are blocked: that is the observation; do not sit out the remaining deadlines
+		// (closing wedged servers would block as well)
+		out.Note = "survivors blocked after the failure; scenario cut short"
+		b, _ := json.Marshal(out)
+		fmt.Println(string(b))
+		os.Exit(0)
+	}
 	// survivors that still hold a registered connection to the closed victim: the victim dialled
 	// them while shutting down and dropped the connection without closing it
 	time.Sleep(300 * time.Millisecond)
